@@ -167,12 +167,9 @@ class uamiv(PseudoNetCDFFile):
         self.nx, self.ny, self.nz = vals[7:10]
         idum, self.idum, rdum, rdum, rdum = vals[10:]
 
-        if self.name == 'EMISSIONS ':
-            # Special case of gridded emissions
-            # Seems to be same as avrg
-            self.nlayers = 1
-        else:
-            self.nlayers = self.nz
+        # gridded emissions have the same layout as average files; files
+        # written without a layer count (nz = 0) hold one layer
+        self.nlayers = max(self.nz, 1)
         self.ione, ione, nx, ny = self.rffile.read(self.cell_hdr_fmt)
         if not (self.nx, self.ny) == (nx, ny):
             raise ValueError(("nx, ny defined first as %i, %i and then " +
